@@ -77,6 +77,13 @@ def generate(ck):
             for seq in itertools.product(("simA", "sim1", "rf", "rfd", "interp"), repeat=n):
                 if "sim1" in seq and "simA" in seq:
                     descs.append({"cls": cls, "cfg": 0, "seq": list(seq)})
+    # work on ANOTHER object in between (same class, same node count, grids of the same lengths):
+    # not an operation on this object, so the fresh-object replay ignores it
+    for cls in ("ideal", "single"):
+        for n in range(2, 5 if ck.tier == "thorough" else 4):
+            for seq in itertools.product(("simA", "oth", "rf", "rfd", "interp"), repeat=n):
+                if "oth" in seq and "simA" in seq and seq.index("simA") < len(seq) - 1 - seq[::-1].index("oth"):
+                    descs.append({"cls": cls, "cfg": 0, "seq": list(seq)})
     # extension outside the property's alphabet
     ext_ops = ("simS", "simA", "simC", "rf", "interp")
     for n in range(2, L):
@@ -154,6 +161,21 @@ def _apply(obj, op, cfg):
                 t = _grid(c["A"]).copy()
                 obj.simulate(t, _schedule(cfg, len(t)))
                 return ("ok", None)
+            if op == "oth":
+                other = type(obj)(obj.nx, 0.4 * c["p_f"], c["p_i"], obj.fluid)
+                for g in ("A", "B", "C"):
+                    other.simulate(0.37 * _grid(c[g]))
+                    other.recovery_factor()
+                other.simulate(np.array([0.1]))
+                # ... and a shallow copy of THIS object (copy.copy of a dataclass: what a parameter
+                # sweep does) re-simulated on a grid of the same length: the original keeps its run
+                import copy as _copy
+
+                twin = _copy.copy(obj)
+                if hasattr(obj, "time"):
+                    twin.simulate(0.37 * np.asarray(obj.time, dtype=float))
+                    twin.recovery_factor()
+                return ("ok", None)
             if op == "rf":
                 return ("ok", np.array(obj.recovery_factor(), copy=True))
             if op == "rfd":
@@ -205,7 +227,9 @@ def run_case(ck, desc):
         start = last if last is not None else 0
         tail = [seq[start]] if last is not None else []
         tail += [o for o in seq[start + (1 if last is not None else 0) : k] if o in ("rf", "rfd")]
-        if not (last is not None and k == last):
+        if op == "oth":
+            ck.count("calls_on_another_object_in_between")
+        elif not (last is not None and k == last):
             tail.append(seq[k])
         if last is not None and log[last][1][0] == "raise":
             # the latest simulate itself failed (only possible in the extension); nothing to replay
@@ -214,6 +238,8 @@ def run_case(ck, desc):
         fres = None
         for op2 in tail:
             fres = _apply(fresh, op2, cfg)
+        if op == "oth":
+            fres = res  # nothing was asked of this object; its stored state is what is compared
         fst = _state(fresh)
         ck.count("fresh_replays")
         bad = []
